@@ -135,9 +135,13 @@ func (g *FastGoBackend) GenerateOne(ast *parser.Thrift) (*plugin.Generated, erro
 
 	// Imports
 	unusedProtect := false
+	selfPath := golang.GetImportPath(g.utils, ast)
 	for _, incl := range scope.Includes() {
 		if incl == nil { // TODO(liyun.339): fix this
 			continue
+		}
+		if incl.ImportPath == selfPath {
+			continue // an include with the same go namespace lives in this very package
 		}
 		unusedProtect = true
 		w.UsePkg(incl.ImportPath, incl.PackageName)
@@ -153,7 +157,7 @@ func (g *FastGoBackend) GenerateOne(ast *parser.Thrift) (*plugin.Generated, erro
 	if unusedProtect {
 		fmt.Fprintln(c, "var (")
 		for _, incl := range scope.Includes() {
-			if incl == nil { // TODO(liyun.339): fix this
+			if incl == nil || incl.ImportPath == selfPath { // TODO(liyun.339): fix this
 				continue
 			}
 			fmt.Fprintf(c, "_ = %s.ThriftGoUnusedProtection\n", incl.PackageName)
